@@ -283,10 +283,19 @@ pub async fn server_handler(
             stream.finish().await
         }
         .await;
+        let failed = r.is_err();
         out.borrow_mut().sent = match r {
             Ok(()) => "ok".into(),
             Err(e) => stream_class(&e),
         };
+        if failed && retry_after_error() {
+            // an application that tidies up: finish() after a send call has failed
+            let a = match stream.finish().await {
+                Ok(()) => "finish:ok".to_string(),
+                Err(e) => stream_class(&e),
+            };
+            out.borrow_mut().after_error.push(a);
+        }
     }
     out.borrow_mut().stage = "done".into();
 }
